@@ -296,6 +296,7 @@ pub struct GenCfg {
     pub allow_refusals: bool,
     /// Bias towards remove / flush / grow clusters (C02).
     pub churn: bool,
+    pub compact_heavy: bool,
     pub name_prefix: String,
 }
 
@@ -308,6 +309,7 @@ impl Default for GenCfg {
             allow_compact: true,
             allow_refusals: false,
             churn: false,
+            compact_heavy: false,
             name_prefix: "r".into(),
         }
     }
@@ -377,7 +379,7 @@ pub fn gen_op(rng: &mut Rng, model: &RawModel, cfg: &GenCfg, name_counter: &mut 
         1,                                          // 9 retain
         4,                                          // 10 region_flush
         if cfg.churn { 14 } else { 8 },             // 11 flush
-        if cfg.allow_compact { 3 } else { 0 },      // 12 compact
+        if !cfg.allow_compact { 0 } else if cfg.compact_heavy { 14 } else { 3 }, // 12 compact
         if cfg.allow_reopen { 3 } else { 0 },       // 13 reopen
         if cfg.allow_refusals { 6 } else { 0 },     // 14 refusal
         2,                                          // 15 create existing
